@@ -179,25 +179,41 @@ pub fn dequant_block(b: &BlockSpec, intra: bool, q: u8) -> Option<([[f64; 8]; 8]
     Some((f, sum))
 }
 
+fn cos_table() -> &'static [[f64; 8]; 8] {
+    // T[u][x] = C(u) * cos((2x+1) u pi / 16)
+    static T: std::sync::OnceLock<[[f64; 8]; 8]> = std::sync::OnceLock::new();
+    T.get_or_init(|| {
+        let mut t = [[0.0f64; 8]; 8];
+        for u in 0..8 {
+            for x in 0..8 {
+                let c = if u == 0 { std::f64::consts::FRAC_1_SQRT_2 } else { 1.0 };
+                t[u][x] = c * ((2 * x + 1) as f64 * u as f64 * std::f64::consts::PI / 16.0).cos();
+            }
+        }
+        t
+    })
+}
+
+/// Ideal 8x8 inverse DCT (H.263 6.2.4 / Annex A), direct double sum in f64.
 fn idct8x8(f: &[[f64; 8]; 8]) -> [[f64; 8]; 8] {
-    use std::f64::consts::PI;
-    let c = |k: usize| if k == 0 { std::f64::consts::FRAC_1_SQRT_2 } else { 1.0 };
+    let t = cos_table();
     let mut out = [[0.0f64; 8]; 8];
-    for y in 0..8 {
-        for x in 0..8 {
-            let mut acc = 0.0;
-            for v in 0..8 {
-                for u in 0..8 {
-                    if f[v][u] != 0.0 {
-                        acc += c(u)
-                            * c(v)
-                            * f[v][u]
-                            * ((2 * x + 1) as f64 * u as f64 * PI / 16.0).cos()
-                            * ((2 * y + 1) as f64 * v as f64 * PI / 16.0).cos();
+    for v in 0..8 {
+        for u in 0..8 {
+            let c = f[v][u];
+            if c != 0.0 {
+                for y in 0..8 {
+                    let cy = c * t[v][y];
+                    for x in 0..8 {
+                        out[y][x] += cy * t[u][x];
                     }
                 }
             }
-            out[y][x] = acc / 4.0;
+        }
+    }
+    for row in out.iter_mut() {
+        for s in row.iter_mut() {
+            *s /= 4.0;
         }
     }
     out
